@@ -59,8 +59,8 @@ def parse? (s : String) : Option Dec :=
     | '.' :: r => (r.takeWhile Char.isDigit, r.dropWhile Char.isDigit)
     | _ => ([], rest)
   -- strconv.ParseFloat also reads "inf" / "infinity" in any case, with an optional sign: an infinity orders above
-  -- (below) every number, which a number beyond the range of float64 stands for here ("nan" is not modelled: the
-  -- generators do not produce it)
+  -- (below) every number, which a number beyond the range of float64 stands for here ("nan" is not a decimal: the
+  -- ordering operators of Eval.lean / Spec.lean ask for it before they coerce)
   let lower := cs.map Char.toLower
   if lower == "inf".toList || lower == "infinity".toList then
     some (ofInt ((if neg then -1 else 1) * (10 : Int) ^ 400))
